@@ -66,6 +66,9 @@ def r08c(F):
 		out.append(Result('08.c', ok, ('ok:' if ok else 'shape:') + 'cur_height-arg', 'check_incoming_htlc_cltv is given cur_height = %s (expected best_block.height + 1)' % expr_str(e), 1, where=F.where(cm.name, cm.line_of(b))))
 	if n == 0:
 		out.append(Result('08.c', False, 'anchor:cltv-call', 'can_forward_htlc_should_intercept no longer calls check_incoming_htlc_cltv'))
+	# no Ok (forward / intercept) outcome without passing the CLTV checks
+	out += guarded_by_call(F, '08.c', cm.name, set(ok_return_blocks(cm)), ['onion_payment::check_incoming_htlc_cltv'], 'result', True)
+	out += P1_who_may_call(F, '08.c', [OP + 'check_incoming_htlc_cltv'], [CMP + 'ChannelManager::can_forward_htlc_should_intercept', OP + 'peel_payment_onion'], floor=2)
 	return out
 
 def _pick(results):
@@ -131,6 +134,21 @@ def r08e(F):
 		ok = k == c['LGP'] and terms == {'height': 1}
 		out.append(Result('08.e', ok, ('ok:' if ok else 'shape:') + 'unforwarded-limit', 'unforwarded_htlc_cltv_limit = %s (expected height + LATENCY_GRACE_PERIOD_BLOCKS)' % expr_str(lim), 1, where=F.where(fu.name)))
 	out += P7_guard(F, '08.e', FC + 'do_best_block_updated', 'holding-cell HTLC expiry', r'cltv_expiry$', r'unforwarded_htlc_cltv_limit$', 'Le', 0)
+	# the deadline scans cover every commitment an HTLC can live in: current AND previous counterparty commitment
+	for fn2 in (fn, MONP + 'ChannelMonitorImpl::block_confirmed'):
+		fu2 = F.func(fn2)
+		ex2 = Expr(fu2)
+		seen = set()
+		for b, ci in fu2.calls():
+			c = norm(ci.get('f') or '')
+			if c.endswith('HashMap::get') and len(ci['args']) > 1 and 'counterparty_claimable_outpoints' in expr_str(ex2.of_operand(ci['args'][0])):
+				k = expr_str(ex2.of_operand(ci['args'][1]))
+				for w in ('current_counterparty_commitment_txid', 'prev_counterparty_commitment_txid'):
+					if w in k:
+						seen.add(w)
+		ok = seen == {'current_counterparty_commitment_txid', 'prev_counterparty_commitment_txid'}
+		out.append(Result('08.e', ok, ('ok:' if ok else 'coverage:') + 'both-counterparty-commitments@' + fn2.rsplit('::', 1)[-1],
+			'%s looks up counterparty_claimable_outpoints for %s (expected both the current and the previous counterparty commitment)' % (fn2.rsplit('::', 1)[-1], sorted(seen)), 2, where=F.where(fn2)))
 	return out
 
 def _pick_n(results, n):
